@@ -21,7 +21,7 @@ Creatable(f) == f.perm \in {"rw", "create"}
 Updatable(f) == f.perm \in {"rw", "update"}
 HasCol(f) == f.perm # "ignore"
 Hooks(w) == w.op \notin {"ucols_struct", "ucols_map", "ucol"}       \* the column-update methods run no hooks
-StructPay(w) == w.op \in {"updates_struct", "ucols_struct", "save", "create", "upsert"}
+StructPay(w) == w.op \in {"updates_struct", "ucols_struct", "save", "create", "create_slice", "upsert"}
 InPay(w, f) == \E i \in DOMAIN w.pay : w.pay[i].f = f.name
 ZeroIn(w, f) == \E i \in DOMAIN w.pay : w.pay[i].f = f.name /\ w.pay[i].zero
 Restricted(w) == w.sel # {} /\ ~w.star
@@ -43,33 +43,39 @@ WrittenOnUpdate(w, f) ==
 \* value written to a tracked update-time column: "now" whenever hooks run and the payload does not give it explicitly
 AutoNow(w, f) == f.auto /\ Hooks(w) /\ (StructPay(w) \/ ~InPay(w, f))
 
-WrittenOnCreate(w, f) ==
+InsertedCol(w, f) ==
   /\ HasCol(f) /\ Creatable(f) /\ ~Omit(w, f)
   /\ IF w.op = "create_map" THEN InPay(w, f) /\ (Sel(w, f) \/ ~Restricted(w))
-     ELSE (Sel(w, f) \/ ~Restricted(w) \/ f.auto) /\ (~f.key \/ ~ZeroIn(w, f))     \* zero key = auto-increment
+     ELSE /\ (Sel(w, f) \/ ~Restricted(w) \/ f.auto)
+          /\ (~f.key \/ ~ZeroIn(w, f))          \* zero key = auto-increment
+\* in a NEW row a zero value of a field with a literal default shows the default (written or not, the
+\* cell holds the default): it counts as not written
+WrittenOnCreate(w, f) == InsertedCol(w, f) /\ (w.op = "create_map" \/ ~f.dflt \/ ~ZeroIn(w, f))
 
 \* upsert (OnConflict UpdateAll) on an existing row: the inserted columns that may also be updated
-WrittenOnUpsert(w, f) == WrittenOnCreate(w, f) /\ Updatable(f) /\ ~f.key
+\* (a zero value of a field with a literal default is inserted as that default and therefore also
+\* overwrites the existing row's value)
+WrittenOnUpsert(w, f) == InsertedCol(w, f) /\ Updatable(f) /\ ~f.key
 
 Written(m, w) ==
   {m[i].name : i \in {j \in DOMAIN m :
-      CASE w.op \in {"create", "create_map"} -> WrittenOnCreate(w, m[j])
+      CASE w.op \in {"create", "create_map", "create_slice"} -> WrittenOnCreate(w, m[j])
         [] w.op = "upsert" -> WrittenOnUpsert(w, m[j])
         [] OTHER -> WrittenOnUpdate(w, m[j])}}
 
 \* ---- design-level statements, checked by TLC over all 2-field models -----------------------
 CONSTANTS Perms
-Model2 == {<<[name |-> "ID", perm |-> "rw", auto |-> FALSE, key |-> TRUE],
-             [name |-> "F1", perm |-> p1, auto |-> FALSE, key |-> FALSE],
-             [name |-> "F2", perm |-> p2, auto |-> a2, key |-> FALSE]>> : p1 \in Perms, p2 \in Perms, a2 \in BOOLEAN}
-OpsAll == {"updates_struct", "updates_map", "update", "ucols_struct", "ucols_map", "ucol", "save", "create", "create_map", "upsert"}
+Model2 == {<<[name |-> "ID", perm |-> "rw", auto |-> FALSE, key |-> TRUE, dflt |-> FALSE],
+             [name |-> "F1", perm |-> p1, auto |-> FALSE, key |-> FALSE, dflt |-> d1],
+             [name |-> "F2", perm |-> p2, auto |-> a2, key |-> FALSE, dflt |-> FALSE]>> : p1 \in Perms, p2 \in Perms, a2 \in BOOLEAN, d1 \in BOOLEAN}
+OpsAll == {"updates_struct", "updates_map", "update", "ucols_struct", "ucols_map", "ucol", "save", "create", "create_slice", "create_map", "upsert"}
 Pays == {<<>>, <<[f |-> "F1", zero |-> FALSE]>>, <<[f |-> "F1", zero |-> TRUE]>>,
          <<[f |-> "F1", zero |-> FALSE], [f |-> "F2", zero |-> TRUE]>>, <<[f |-> "F1", zero |-> TRUE], [f |-> "F2", zero |-> FALSE]>>}
 FullPay(p) == <<[f |-> "ID", zero |-> FALSE]>> \o p \o (IF \E i \in DOMAIN p : p[i].f = "F2" THEN <<>> ELSE <<[f |-> "F2", zero |-> TRUE]>>)
                  \o (IF \E i \in DOMAIN p : p[i].f = "F1" THEN <<>> ELSE <<[f |-> "F1", zero |-> TRUE]>>)
 VARIABLES m, w
 Init == /\ m \in Model2
-        /\ w \in {[op |-> o, pay |-> (IF o \in {"updates_struct", "ucols_struct", "save", "create", "upsert"} THEN FullPay(p) ELSE p),
+        /\ w \in {[op |-> o, pay |-> (IF o \in {"updates_struct", "ucols_struct", "save", "create", "create_slice", "upsert"} THEN FullPay(p) ELSE p),
                    sel |-> s, star |-> st, omit |-> om] :
                      o \in OpsAll, p \in Pays, s \in SUBSET {"F1", "F2"}, st \in BOOLEAN, om \in SUBSET {"F1", "F2"}}
 Next == UNCHANGED <<m, w>>
@@ -79,8 +85,8 @@ FieldOf(n) == m[CHOOSE i \in DOMAIN m : m[i].name = n]
 OnlyPermitted == \A n \in Written(m, w) :
    LET f == FieldOf(n) IN
    /\ HasCol(f) /\ f.perm # "ro" /\ f.perm # "none"
-   /\ (w.op \in {"create", "create_map"} => Creatable(f))
-   /\ (w.op \notin {"create", "create_map"} => Updatable(f))
+   /\ (w.op \in {"create", "create_map", "create_slice"} => Creatable(f))
+   /\ (w.op \notin {"create", "create_map", "create_slice"} => Updatable(f))
 \* Omit always wins
 OmitWins == \A n \in Written(m, w) : n \notin w.omit
 \* the column-update methods never refresh a tracked update-time field by themselves
